@@ -46,8 +46,14 @@ func genSpec(ch *simrt.Chooser, consistent bool) (*tls.ClientHelloSpec, string) 
 	suites13 := []uint16{tls.TLS_AES_128_GCM_SHA256, tls.TLS_AES_256_GCM_SHA384, tls.TLS_CHACHA20_POLY1305_SHA256}
 	var cs []uint16
 	grease := ch.Bool(50, "spec-grease")
+	// the GREASE marker in a spec is the placeholder or, sometimes, a concrete GREASE value
+	// (as in a hand-written spec copied from a capture)
+	gv := uint16(tls.GREASE_PLACEHOLDER)
+	if grease && ch.Bool(30, "concrete-grease") {
+		gv = uint16(0x1a1a + 0x1010*ch.Pick(15, "grease-value"))
+	}
 	if grease {
-		cs = append(cs, tls.GREASE_PLACEHOLDER)
+		cs = append(cs, gv)
 	}
 	if tls13 {
 		n := ch.Range(1, 3, "n13")
@@ -72,7 +78,7 @@ func genSpec(ch *simrt.Chooser, consistent bool) (*tls.ClientHelloSpec, string) 
 	goff := ch.Pick(len(groups), "goff")
 	var curves []tls.CurveID
 	if grease {
-		curves = append(curves, tls.CurveID(tls.GREASE_PLACEHOLDER))
+		curves = append(curves, tls.CurveID(gv))
 	}
 	for i := 0; i < ng; i++ {
 		curves = append(curves, groups[(goff+i)%len(groups)])
@@ -116,7 +122,7 @@ func genSpec(ch *simrt.Chooser, consistent bool) (*tls.ClientHelloSpec, string) 
 	if tls13 {
 		var ks []tls.KeyShare
 		if grease {
-			ks = append(ks, tls.KeyShare{Group: tls.CurveID(tls.GREASE_PLACEHOLDER), Data: []byte{0}})
+			ks = append(ks, tls.KeyShare{Group: tls.CurveID(gv), Data: []byte{0}})
 		}
 		// shares for a prefix of the listed groups (possibly none beyond GREASE: forces HRR)
 		nshare := ch.Range(0, ng, "nshares")
@@ -130,7 +136,7 @@ func genSpec(ch *simrt.Chooser, consistent bool) (*tls.ClientHelloSpec, string) 
 		add("pskmodes", &tls.PSKKeyExchangeModesExtension{Modes: []uint8{tls.PskModeDHE}})
 		vers := []uint16{tls.VersionTLS13, tls.VersionTLS12}
 		if grease {
-			vers = append([]uint16{tls.GREASE_PLACEHOLDER}, vers...)
+			vers = append([]uint16{gv}, vers...)
 		}
 		if ch.Bool(20, "v11") {
 			vers = append(vers, tls.VersionTLS11, tls.VersionTLS10)
